@@ -124,9 +124,8 @@ func newWorld(x *mc.X, cfg worldCfg) *world {
 		w.leaf.VirtualClose(virtual.ShareMaskWrite)
 	}
 	if cfg.cached {
-		if cfg.heldWriter {
-			panic("cannot cache a digest while a writer exists without waiting")
-		}
+		// With a descriptor still open for writing the upload gives up
+		// waiting at once (the delay passed here has expired already).
 		if _, err := uploadFile(w.leaf, w.cas, sha256Fn, closedChannel); err != nil {
 			panic(err)
 		}
@@ -578,5 +577,5 @@ func scenarios() []*mc.Scenario {
 		w.writer(true, false, mutWrite)
 		w.uploader("U")
 	}))
-	return r
+	return append(r, reachScenarios()...)
 }
